@@ -31,7 +31,10 @@ fn gen_template(rng: &mut Rng, malformed: bool) -> Vec<u8> {
     for _ in 0..n {
         let k = rng.below(if malformed { 22 } else { 14 });
         match k {
-            0 | 1 => t.push(*rng.pick(b"ab -_X")),
+            // literals include the bytes adjacent to every range of the capture-name alphabet
+            // ('/' '0' '9' ':' '@' 'A' 'Z' '[' '^' '_' '`' 'a' 'z' '{') so an off-by-one in it is visible
+            0 => t.push(*rng.pick(b"ab -_X")),
+            1 => t.push(*rng.pick(b"/09:@AZ[\\]^_`az{|~.")),
             2 => t.extend(b"$$"),
             3 => t.extend(format!("${}", rng.below(4)).as_bytes()),
             4 => t.extend(format!("${{{}}}", rng.below(4)).as_bytes()),
@@ -378,7 +381,6 @@ fn run_l2(case: &str, c: &L2, drv: &mut Driver, rep: &mut Report) {
     let mut model_out = vec![];
     let mut spec_out = vec![];
     let mut crlf_bare_lf = false;
-    let mut empty_at_end = false;
     let mut any_match = false;
     let mut any_nonmatch = false;
     let mut ls = 0usize;
@@ -440,9 +442,9 @@ fn run_l2(case: &str, c: &L2, drv: &mut Driver, rep: &mut Report) {
             table
         ));
         model_out.extend(unhex(&reply).unwrap_or_else(|| b"<bad-op>".to_vec()));
-        // F6: an empty match at the very end of an unterminated final line
+        // F6 (repaired): an empty match at the very end of an unterminated final line
         if term_in.is_empty() && re.find_iter(content).any(|m| m.is_empty() && m.start() == content.len()) {
-            empty_at_end = true;
+            rep.branch("l2:empty-match-at-end-of-unterminated-last-line");
         }
         if c.only {
             for caps in re.captures_iter(content) {
@@ -484,8 +486,6 @@ fn run_l2(case: &str, c: &L2, drv: &mut Driver, rep: &mut Report) {
             "braced-name-outside-capletters"
         } else if crlf_bare_lf && !c.only {
             "crlf-mode-bare-lf-terminator-rewritten"
-        } else if empty_at_end {
-            "empty-match-at-end-of-unterminated-last-line"
         } else {
             ""
         };
